@@ -169,6 +169,27 @@ Example t_segwit_bytes :
                length (spec_ser t_segwit) = 208%nat.
 Proof. eexists. eexists. split; [vm_compute; reflexivity|]. split; vm_compute; reflexivity. Qed.
 
+(* a segwit coinbase whose witness reserved value reads as a truncated push (0x20 followed by 31 bytes): BIP141 leaves
+   the value free, the transaction is in the domain of lib_roundtrip, and the witness is written back *)
+Definition t_coinbase_rv : tx :=
+  mk_tx 2 [mk_txin (repeat x00 32) 4294967295 [x03; xa0; x86; x01] 4294967295 [x20 :: repeat x01 31]]
+        [mk_txout 625000000 pkh] 0 true.
+
+Example t_coinbase_rv_in_domain : wf_tx t_coinbase_rv /\ quirk_free t_coinbase_rv.
+Proof.
+  split.
+  - unfold wf_tx, t_coinbase_rv. cbn [tx_version tx_ins tx_outs tx_locktime tx_segwit].
+    repeat split; try (cbn; lia); try discriminate; try reflexivity.
+    + repeat constructor; cbn; lia.
+    + repeat constructor; cbn; lia.
+  - repeat split; try discriminate; repeat constructor.
+Qed.
+
+Example t_coinbase_rv_bytes :
+  exists t' r, lib_parse_body (spec_ser t_coinbase_rv) = Some (t', r) /\ lib_raw t' = Some (spec_ser t_coinbase_rv) /\
+               length (spec_ser t_coinbase_rv) = 125%nat.
+Proof. eexists. eexists. split; [vm_compute; reflexivity|]. split; vm_compute; reflexivity. Qed.
+
 (* --- every clause of the guards is needed: witnesses of the excluded classes --- *)
 (* stated on lib_parse_body (lib_parse without the id, which raw() does not use), so that the witnesses
    are checked by computation without evaluating SHA-256 inside Coq *)
